@@ -125,6 +125,32 @@ pub fn idle_runtime_producer(em: &mut Emit) {
     }
 }
 
+/// C10 with a chunk size above 64 KiB: one write that fills the chunk (an automatic flush of more
+/// than 64 KiB into an empty queue), or an explicit flush of as much, while the consumer is
+/// parked and the writer stays alive: the consumer must be woken.
+pub fn large_chunk_wake(em: &mut Emit) {
+    for (cap, n, explicit) in [(70_000usize, 70_000usize, false), (200_000, 150_000, true), (65_537, 65_537, false), (65_536, 65_536, false)] {
+        let (mut body, _, mut w) = build(false, cap);
+        let log = Arc::new(Mutex::new(vec![]));
+        let waker = mk_waker(1, &log);
+        let mut cx = std::task::Context::from_waker(&waker);
+        let parked = matches!(body.as_mut().poll_frame(&mut cx), std::task::Poll::Pending);
+        let payload = vec![b'k'; n];
+        let _ = w.write_all(&payload);
+        if explicit {
+            let _ = w.flush();
+        }
+        let woken = !log.lock().unwrap().is_empty();
+        let (got, _) = drain(&mut body);
+        em.pred_only(
+            &format!("chunk size {}, consumer parked, one write of {} bytes{}; the writer stays alive", cap, n, if explicit { " and a flush" } else { "" }),
+            &pred(parked && woken && got.len() == n, || format!("parked={} woken={} bytes available afterwards={}", parked, woken, got.len())),
+            "large-chunk-wake",
+        );
+        drop(w);
+    }
+}
+
 /// C11: the body is dropped on a thread inside a current-thread tokio runtime (where
 /// `block_in_place` panics) with thousands of chunks queued: the writer is still told, nothing panics.
 pub fn body_dropped_in_current_thread_runtime(em: &mut Emit) {
